@@ -317,7 +317,10 @@ func FilterPMTPacketsToPids(packets []*packet.Packet, pids []int) ([]*packet.Pac
 	pmtPayload := pmtByteBuffer.Bytes()
 
 	// Determine if any of the given PIDs aren't in the PMT.
-	unfilteredPMT, _ := NewPMT(pmtPayload)
+	unfilteredPMT, err := NewPMT(pmtPayload)
+	if err != nil {
+		return nil, err
+	}
 
 	pmtPid := packet.Pid(packets[0])
 	var missingPids []int
@@ -345,7 +348,10 @@ func FilterPMTPacketsToPids(packets []*packet.Packet, pids []int) ([]*packet.Pac
 	}
 
 	// include +1 to account for the PointerField field itself
-	pointerField := PointerField(pmtPayload) + 1
+	pointerField := int(PointerField(pmtPayload)) + 1
+	if len(pmtPayload) < pointerField+programInfoLengthOffset+2 {
+		return nil, gots.ErrPMTParse
+	}
 
 	var filteredPMT bytes.Buffer
 
@@ -357,9 +363,17 @@ func FilterPMTPacketsToPids(packets []*packet.Packet, pids []int) ([]*packet.Pac
 
 	// Get the section length
 	sectionLength := sectionLength(pmtPayload)
+	// the section must hold its fixed fields and CRC, and must be there in full
+	if sectionLength < 9+CrcLen || len(pmtPayload) < 3+int(sectionLength) {
+		return nil, gots.ErrPMTParse
+	}
+	sectionEnd := 3 + int(sectionLength) - int(CrcLen) // first byte of the CRC
 
 	// Get program info length
 	programInfoLength := uint16(pmtPayload[programInfoLengthOffset]&0x0f)<<8 | uint16(pmtPayload[programInfoLengthOffset+1])
+	if programInfoLengthOffset+2+int(programInfoLength) > sectionEnd {
+		return nil, gots.ErrPMTParse
+	}
 	if programInfoLength != 0 {
 		filteredPMT.Write(pmtPayload[programInfoLengthOffset+2 : programInfoLengthOffset+2+programInfoLength])
 	}
@@ -367,6 +381,9 @@ func FilterPMTPacketsToPids(packets []*packet.Packet, pids []int) ([]*packet.Pac
 	for offset := programInfoLengthOffset + 2 + programInfoLength; offset < PSIHeaderLen+sectionLength-pmtEsDescriptorStaticLen-CrcLen; {
 		elementaryPid := int(pmtPayload[offset+1]&0x1f)<<8 | int(pmtPayload[offset+2])
 		infoLength := uint16(pmtPayload[offset+3]&0x0f)<<8 | uint16(pmtPayload[offset+4])
+		if int(offset)+int(pmtEsDescriptorStaticLen)+int(infoLength) > sectionEnd {
+			return nil, gots.ErrPMTParse
+		}
 
 		// This is an ES PID we want to keep
 		if pidIn(pids, elementaryPid) {
